@@ -280,6 +280,9 @@ func (ex *Exec) feasibleM(t *Term) (bool, assignment) {
 		m = ex.fetchModel(t)
 	}
 	ex.cvc.Pop()
+	if r == "unknown" && !ex.zOK(t) && os.Getenv("VERIF_LOGUNKNOWN") != "" {
+		fmt.Fprintf(os.Stderr, "UNKNOWN-FEASIBILITY(cvc5 only) %s\n%s\n", ex.curH.Name, ex.dumpQuery(t))
+	}
 	if r == "unknown" && ex.zOK(t) {
 		ex.syncZ()
 		r = ex.z3.Check(t)
